@@ -45,19 +45,27 @@ int main(int argc, char** argv)
     int ncases = seq ? (E.thorough ? 400 : 100) : (E.thorough ? 120 : 36);
     // after the regular cases (their numbers stay): two-scale weights with threshold 1/4, so that A has weak cross-rank
     // edges and ghost columns which the strength matrix does not have
-    int nextra = c16 ? 0 : ncases / 2;
+    int nextra = ncases / 2;       // C16: the extra cases have a non-symmetric matrix and rows without a stored diagonal instead
     // ... and then: exact ties. Every off-diagonal a_ij = -(2 - key_j) with keys in multiples of 1/128, so that for every
     // vertex all candidates of the second aggregation pass have exactly the same strength |a_ij| + key_j = 2: the result is
     // decided by the tie rule alone (A is not symmetric here; the routines read row i of A only)
     int nties = c16 ? 0 : ncases / 3;
     for (int it0 = 0; it0 < ncases + nextra + nties; it0++)
     {
-        bool twoscale = it0 >= ncases && it0 < ncases + nextra, tiemode = it0 >= ncases + nextra;
-        int it = twoscale ? (it0 - ncases) * 2 : tiemode ? (it0 - ncases - nextra) * 3 : it0;
+        bool extra1 = it0 >= ncases && it0 < ncases + nextra, twoscale = extra1 && !c16, nonsym = extra1 && c16, tiemode = it0 >= ncases + nextra;
+        int it = extra1 ? (it0 - ncases) * 2 : tiemode ? (it0 - ncases - nextra) * 3 : it0;
         int cap = 2 + std::min(28, it / 2);
         int n = std::max(seq ? 1 : np, g.range(1, cap + (seq ? 0 : np)));
         if (tiemode) n = std::min(n, 31);
         vh::Trip t = gen_sym(g, n, twoscale);
+        if (nonsym) {      // a_ij != a_ji, and every fifth row (from 2) loses its diagonal entry: D is the absolute row sum either way
+            vh::Trip u; u.n_rows = u.n_cols = n;
+            for (size_t k = 0; k < t.r.size(); k++) {
+                if (t.r[k] == t.c[k] && t.r[k] % 5 == 2) continue;
+                double v = t.v[k]; if (t.r[k] != t.c[k]) v *= 1.0 + 0.5 * (t.r[k] % 3);
+                u.r.push_back(t.r[k]); u.c.push_back(t.c[k]); u.v.push_back(v); }
+            t = u;
+        }
         std::vector<double> keys = gen_keys(g, n);
         double theta = g.coin() ? 0.0 : 0.25; if (twoscale) theta = 0.25;
         if (tiemode) {
